@@ -482,6 +482,10 @@ def run_spelling_fixture(fx, seed, bad, stats, when=None, kind="spelling"):
                 nm = P.basename(P.abspath(P.normpath(o[1])))
                 if nm:
                     exp = "ok:(" + fsops.r_str(nm) + exp[len("ok:(s"):]
+        if route is None and o[0] in ("scandir", "isempty", "filterdir"):
+            # scanning a directory of the default filesystem asks the filesystems mounted directly inside it for the
+            # info of their root (a mount point is reported as getinfo reports it; /repo 75d0617)
+            want = want + sorted(set(e[0] for e in log if e[1] == "getinfo" and e[2] in ("", "/")))
         stray = [t for t in touched if t not in want]
         if stray:
             bad.append(("a filesystem other than the routed one was touched", c2, res,
